@@ -278,6 +278,7 @@ func C14(c *core.Ctx) {
 	c14Translations(c)
 	c14Mutations(c)
 	c14NotWholeCodons(c)
+	c14ResolvableAmbiguity(c)
 }
 
 // c14Text: end to end from file text.
@@ -653,4 +654,42 @@ func c14NotWholeCodons(c *core.Ctx) {
 		}
 	}
 	c.Ob("R8/not-whole-codons/both-descriptions-treated-alike", len(bad) == 0, funcPos(c, "pkg/variants", "CDSRegion2fromGenbank"), "%s", first(bad, 3))
+}
+
+// c14ResolvableAmbiguity: a reference codon that contains an ambiguity code but still has a single translation (CCN is
+// proline) is a codon like any other: both descriptions are accepted and give the same regions.
+func c14ResolvableAmbiguity(c *core.Ctx) {
+	A := map[string]string{"ID": "c1", "Name": "g1"}
+	var bad []string
+	for _, tc := range []struct {
+		at   int
+		code byte
+	}{{5, 'N'}, {5, 'Y'}, {8, 'R'}} { // CCC -> CCN / CCY (P), AAA -> AAR (K)
+		ref := []byte(annoRef)
+		ref[tc.at] = tc.code
+		g := evalRegionsGFF(c, []*eval.StructVal{mkGFFFeature(c, "CDS", 1, 9, "+", 0, A)}, string(ref))
+		b := evalRegionsGenbank(c, []gbFeature{{"CDS", "1..9", "g1", 1}}, string(ref))
+		if strings.HasPrefix(g.err, "undecided") || strings.HasPrefix(b.err, "undecided") || strings.HasPrefix(g.err, "UNRESOLVED") || strings.HasPrefix(b.err, "UNRESOLVED") {
+			c.Und("R9/resolvable-ambiguity-in-the-reference", funcPos(c, "pkg/variants", "CDSRegion2fromGFF"), "%s %s", g.err, b.err)
+			return
+		}
+		switch {
+		case g.err != "" && b.err == "":
+			bad = append(bad, fmt.Sprintf("reference %s: the GenBank description is accepted, the GFF description is refused (%s)", ref, g.err))
+		case g.err == "" && b.err != "":
+			bad = append(bad, fmt.Sprintf("reference %s: the GFF description is accepted, the GenBank description is refused (%s)", ref, b.err))
+		case g.err == "" && !sameSet(trimStars(g.regions), trimStars(b.regions)):
+			bad = append(bad, fmt.Sprintf("reference %s: GFF gives %v, GenBank gives %v", ref, g.regions, b.regions))
+		}
+	}
+	c.Ob("R9/resolvable-ambiguity-in-the-reference/both-descriptions-treated-alike", len(bad) == 0, funcPos(c, "pkg/variants", "CDSRegion2fromGFF"), "%s", first(bad, 3))
+}
+
+// trimStars drops the marker the GenBank rendering puts after a translation taken from the file.
+func trimStars(rs []string) []string {
+	out := []string{}
+	for _, r := range rs {
+		out = append(out, strings.TrimSuffix(r, "*"))
+	}
+	return out
 }
